@@ -34,24 +34,32 @@ Proof.
   rewrite !E. reflexivity.
 Qed.
 
+(* In the proofs below the hypothesis fixes a generated boolean; when it contradicts the generated value the first branch
+   closes the goal, otherwise the second branch is the proof proper.  Either way the script checks on both kinds of tree. *)
 (* C10's statement about the three local runners holds iff run_standalone consults the result *)
 Theorem runners_agree : nano_vm_propagates_result = true ->
   forall r1 r2 o, local_runner r1 = true -> local_runner r2 = true -> exit_status r1 o = exit_status r2 o.
 Proof.
-  intros P r1 r2 o L1 L2. destruct r1, r2; try discriminate; destruct o; unfold exit_status, main_return; rewrite ?P; reflexivity.
+  intros P.
+  first [ unfold nano_vm_propagates_result in P; discriminate P
+        | intros r1 r2 o L1 L2; destruct r1, r2; try discriminate; destruct o; unfold exit_status, main_return; rewrite ?P; reflexivity ].
 Qed.
 
 Theorem runners_agree_refuted : nano_vm_propagates_result = false ->
   exists r1 r2 o, local_runner r1 = true /\ local_runner r2 = true /\ exit_status r1 o <> exit_status r2 o.
 Proof.
-  intros P. exists VirtRun, NanoVmFile, (VmOk true 3). split; [reflexivity|]. split; [reflexivity|].
-  unfold exit_status, main_return. rewrite P. vm_compute. discriminate.
+  intros P.
+  first [ unfold nano_vm_propagates_result in P; discriminate P
+        | exists VirtRun, NanoVmFile, (VmOk true 3); split; [reflexivity|]; split; [reflexivity|];
+          unfold exit_status, main_return; rewrite P; vm_compute; discriminate ].
 Qed.
 
 Theorem runners_disagree : nano_vm_propagates_result = false ->
   forall v, v mod 256 <> 0 -> exit_status VirtRun (VmOk true v) <> exit_status NanoVmFile (VmOk true v).
 Proof.
-  intros P v H. rewrite virt_status_is_low_byte. unfold exit_status, main_return. rewrite P. exact H.
+  intros P.
+  first [ unfold nano_vm_propagates_result in P; discriminate P
+        | intros v H; rewrite virt_status_is_low_byte; unfold exit_status, main_return; rewrite P; exact H ].
 Qed.
 
 (* the daemon client never reports main's value (outside C10's three runners; see C17) *)
@@ -60,8 +68,16 @@ Proof. intros H. rewrite virt_status_is_low_byte. exact H. Qed.
 
 (* global initialisers *)
 Theorem init_once : wrapper_calls_init = false -> forall r, init_runs r = 1%nat.
-Proof. intros W r. destruct r; unfold init_runs; rewrite ?W; reflexivity. Qed.
+Proof.
+  intros W.
+  first [ unfold wrapper_calls_init in W; discriminate W
+        | intros r; destruct r; unfold init_runs; rewrite ?W; reflexivity ].
+Qed.
 Theorem init_once_refuted : wrapper_calls_init = true -> exists r, local_runner r = true /\ init_runs r <> 1%nat.
-Proof. intros W. exists Wrapper. split; [reflexivity|]. unfold init_runs. rewrite W. discriminate. Qed.
+Proof.
+  intros W.
+  first [ unfold wrapper_calls_init in W; discriminate W
+        | exists Wrapper; split; [reflexivity|]; unfold init_runs; rewrite W; discriminate ].
+Qed.
 Theorem init_once_others r : r <> Wrapper -> init_runs r = 1%nat.
-Proof. destruct r; intros H; try reflexivity. contradiction H; reflexivity. Qed.
+Proof. destruct r; intros H; try reflexivity; contradiction H; reflexivity. Qed.
